@@ -66,6 +66,17 @@ static void unlock(void) {
   __atomic_store_n(&iom_lock_word, 0, __ATOMIC_RELEASE);
 }
 
+/* fork() of a process whose other threads (lcdb background threads of other handles) may be inside the interposer:
+   taken with the interposer's lock held, so that the child - which consists of the forking thread only - never
+   inherits the lock in the hands of a thread that does not exist there */
+pid_t iom_fork(void) {
+  pid_t pid;
+  lock();
+  pid = fork();
+  unlock();          /* parent and child alike: the forking thread is the holder in both */
+  return pid;
+}
+
 /* ------------------------------------------------------------------ */
 /* state */
 
